@@ -217,13 +217,13 @@ def real_stages(ctx):
             assets = ["/pr%d/a%d.png" % (i, j) for j in range(r.randrange(2, 6))]
             pages["/pr%d/" % i] = {"ctype": "text/html", "body": {"kind": "html", "assets": assets, "outlinks": []}, "delayMs": 40}
             for a in assets:
-                pages[a] = {"ctype": "image/png", "body": {"kind": "png", "size": 300, "seed": 3}, "delayMs": r.choice([30, 120])}
+                pages[a] = {"ctype": "image/png", "body": {"kind": "png", "size": 300, "seed": 3}, "delayMs": r.choice([10, 60])}
             seeds.append("/pr%d/" % i)
         idle_first = k % 2 == 0
         # "idle": fewer seeds than workers, so most workers of every stage sit waiting for work when the pause arrives
         scns.append({"seeds": seeds[:1] if idle_first else seeds, "site": pages, "useHQ": True,
                      "cfg": {"workers": 4 if idle_first else r.choice([1, 2]), "maxConcurrentAssets": 1, "maxRetry": 0, "httpTimeout": 3, "hqBatchSize": 1},
-                     "stop": {"when": "pauseresume", "n": r.randrange(0, 3) if idle_first else r.randrange(1, 5), "settleMs": 700, "holdMs": 600, "timeoutMs": 40000},
+                     "stop": {"when": "pauseresume", "n": r.randrange(0, 3) if idle_first else r.randrange(1, 5), "settleMs": 2500, "holdMs": 600, "timeoutMs": 40000},
                      "moment": "idle" if idle_first else "busy"})
     for scn, (rep, err) in zip(scns, e2e.run_many(scns, timeout=120, workers=6)):
         judge_real(ctx, scn, rep, err)
@@ -247,7 +247,7 @@ def judge_real(ctx, scn, rep, err):
         if rep.get("resumeHung"):
             ctx.violation("Resume() had not returned after 10 s: a stage worker never acknowledged the pause (%s pipeline, %s)" % (scn["moment"], scn["cfg"]), rp); return
         if rep.get("requestsWhilePaused"):
-            ctx.violation("%d request(s) were sent while the pipeline was paused (after 0.7 s of settling; %s pipeline)" % (rep["requestsWhilePaused"], scn["moment"]), rp); return
+            ctx.violation("%d request(s) were sent while the pipeline was paused (after 2.5 s of settling - a worker finishes the seed it holds before it looks at the pause, at most 0.4 s here; %s pipeline)" % (rep["requestsWhilePaused"], scn["moment"]), rp); return
         if rep.get("stillPausedAfterResume"):
             ctx.violation("the pipeline is still flagged paused after Resume() returned", rp); return
         if not rep.get("drained"):
